@@ -65,6 +65,10 @@ CHECKS = {
          "The finite part (cycles, numbering, all pairs of weekday sets, every front/back interleaving of every set from every start day, every letter-case variant, prefix and one-letter extension of every name) is enumerated completely on every run; numeric conversions are checked for every FromPrimitive entry point on enumerated neighbourhoods and random i64/u64 values biased to values congruent to valid numbers modulo 2^8/2^16/2^32; strings by mutation and arbitrary Unicode including case-folding look-alikes.",
          "Trusted base: literal name tables and modular arithmetic in harness/src/props/c19.rs.",
          "DESIGN.md section 3 C19"),
+ "C20": ("proptest over values of every serializable type through serde_json (self-describing) and bincode (positional); raw i64/u64 integers fed to each of the sixteen ts_* modules through serde's primitive deserializers and JSON numbers; round-trip + R-inst differential oracle",
+         "Every serializable type must come back equal from both formats (zone-aware: same instant, same offset when it is a whole minute); each ts_* module (seconds..nanoseconds, plain and option, UTC and naive) must write exactly floor(instant/unit) and read back the truncated instant; raw integers (edge-biased to each module's representable ends and to u64 > i64::MAX) must be accepted exactly when the instant is representable and otherwise give an error, never a panic. Known findings F15 (offsets with seconds) and F18 (headroom wall clocks) are routed around and re-confirmed by probes.",
+         "Trusted base: R-inst; derive-generated wrapper structs with #[serde(with = ...)]; serde_json 1 and bincode 1.3 as the two data formats.",
+         "DESIGN.md section 3 C20"),
 }
 NOT_YET = "check not yet built in this revision of /verif (planned, see DESIGN.md section 3)"
 
